@@ -226,6 +226,36 @@ def cat_framework(model, spec):
             m = X.clone(model)
             X.set_cell(m, "Parameters", p, "Format", "bananas")
             add("unknown-unit-on-transition", "reject", p, m)
+    # one parameter on links of two kinds: the unit rule holds for EVERY link of the parameter, not for some of them
+    mat0 = X.table(model, "Transitions")
+    names0 = mat0[0][1:]
+    jpars = sorted({p for s, d, p in spec["links"] if p in pfmt and kinds[s] == "junc"})
+    opars = sorted({p for s, d, p in spec["links"] if p in pfmt and kinds[s] == "ord" and pfmt[p] in ("rate", "probability") and not any(q.get("timed") for q in spec["pars"] if q["name"] == p)})
+    jcomps = [n for n, k in kinds.items() if k == "junc"]
+    ocomps = [n for n, k in kinds.items() if k == "ord"]
+    for jp in jpars:
+        for o in ocomps:
+            for d in ocomps:
+                if d != o:
+                    m = X.clone(model)
+                    tab = X.table(m, "Transitions")
+                    cell = tab[1 + names0.index(o)][1 + names0.index(d)]
+                    for val, how in ((jp, "replaces"), (f"{cell}, {jp}" if cell else None, "joins")):
+                        if val is None:
+                            continue
+                        m = X.clone(model)
+                        X.table(m, "Transitions")[1 + names0.index(o)][1 + names0.index(d)] = val
+                        add("proportion-also-on-ordinary-outflow", "reject", f"{jp} {how} {o}->{d}", m)
+                    break
+    for op in opars[:2]:
+        for j in jcomps:
+            for d in ocomps:
+                cell = mat0[1 + names0.index(j)][1 + names0.index(d)]
+                if cell and cell != ">":
+                    m = X.clone(model)
+                    X.table(m, "Transitions")[1 + names0.index(j)][1 + names0.index(d)] = f"{cell}, {op}"
+                    add("ordinary-unit-also-on-junction-outflow", "reject", f"{op} joins {j}->{d}", m)
+                    break
     sinks = [n for n, k in kinds.items() if k == "sink"]
     mat = X.table(model, "Transitions")
     names = mat[0][1:]
@@ -394,6 +424,7 @@ def run_framework_mutations(case):
     vs = []
     counters = {}
     sites = set()
+    Fvalid, _e = try_framework(X.to_bytes(model))
     for rule, verdict, site, m in cat_framework(model, spec):
         counters["mut_" + rule] = counters.get("mut_" + rule, 0) + 1
         F, err = try_framework(X.to_bytes(m))
@@ -404,6 +435,32 @@ def run_framework_mutations(case):
                 vs.append(V(f"internal-error:{rule}:{type(err).__name__}@{raise_site(err)}", f"{case['name']}: mutation '{rule}' at {site} raised {type(err).__name__} (not the dedicated invalid-input error): {str(err)[:140]}", dict(rule=rule, site=site)))
             else:
                 sites.add(raise_site(err) + ":" + str(err)[:25])
+        # second route - the same tables put into an already validated framework object (its sheet lists are kept and re-filled in place, the
+        # way a user edits `F.sheets[...]`), then validated again: the verdict is that of the file
+        if Fvalid is not None:
+            try:
+                Fraw = at.ProjectFramework(X.spreadsheet(X.to_bytes(m)), validate=False)
+            except Exception:  # noqa  (unreadable workbook: only the file route applies)
+                Fraw = None
+            if Fraw is not None:
+                counters["revalidated_objects"] = counters.get("revalidated_objects", 0) + 1
+                F2 = sc.dcp(Fvalid)
+                for k in list(F2.sheets.keys()):
+                    if k not in Fraw.sheets:
+                        del F2.sheets[k]
+                for k, v in Fraw.sheets.items():
+                    if k in F2.sheets:
+                        F2.sheets[k][:] = v
+                    else:
+                        F2.sheets[k] = v
+                try:
+                    F2._validate()
+                    err2 = None
+                except Exception as e:  # noqa
+                    err2 = e
+                if (err is None) != (err2 is None) or (err is not None and classify(err) != classify(err2)):
+                    d2 = "accepted" if err2 is None else f"{type(err2).__name__}@{raise_site(err2)}"
+                    vs.append(V(f"edited-object-verdict-differs:{rule}:{d2}", f"{case['name']}: mutation '{rule}' at {site}: the file is {'accepted' if err is None else 'rejected (' + type(err).__name__ + ')'} but the same tables put into a validated framework object and validated again are {d2}: {str(err2)[:120]}", dict(rule=rule, site=site)))
         else:
             if err is not None:
                 vs.append(V(f"valid-framework-rejected:{rule}:{type(err).__name__}@{raise_site(err)}", f"{case['name']}: mutation '{rule}' at {site} keeps the framework valid but it was rejected: {type(err).__name__}: {str(err)[:140]}", dict(rule=rule, site=site)))
